@@ -4,17 +4,14 @@ from pathlib import Path
 
 VERIF = Path(__file__).resolve().parent.parent
 
-CLAIMED = {
-    # id: (design_ref, level text, level note, technique)
-    "C14": ("DESIGN.md §6 C14",
-            "Coq theorems C14_moved/C14_created/C14_parents_first/C14_rekey over all content trees, names and non-empty "
-            "prefixes (structural induction, no size bound) about an executable model of generate_sub_moved_events, "
-            "generate_sub_created_events and the reader's re-key step; the model is tied to /repo by running the extracted "
-            "model and the real functions on the same on-disk trees (colliding name universe) on every run.",
-            "Trusted: Coq kernel; os.walk order and posixpath.join are modelled (validated against CPython each run); "
-            "correspondence is sampled. Paths are non-empty and the destination has no trailing '/'.",
-            "Coq proof (structural induction over rose trees) + differential correspondence via extracted OCaml model"),
-}
+import importlib
+
+CLAIMED = {}
+for f in sorted((VERIF / "harness" / "props").glob("c[0-9]*.py")):
+    mod = importlib.import_module(f"harness.props.{f.stem}")
+    if getattr(mod, "MANIFEST", None):
+        m = mod.MANIFEST
+        CLAIMED[f.stem.upper()] = (m["design_ref"], m["text"], m["note"], m["technique"])
 
 NOT_YET = "check not built yet in this session (planned in DESIGN.md §6); not claimed until its theorems and correspondence exist"
 
